@@ -618,6 +618,58 @@ def fold_library_pairs(fn):
     return fn
 
 
+def drop_identity_stores(fn):
+    """inside `for i, x in enumerate(C)` / `for k, x in D.items()`: `C[i] = x` / `D[k] = x` (with i, k, x the loop's own names, not rebound in
+    the body) stores the element back where it was read from - a no-op, which an inlined helper that "returns the value unchanged" produces"""
+    def rec(loop):
+        it = loop.iter
+        cont = None
+        if isinstance(it, ast.Call) and u(it.func) == "enumerate" and len(it.args) == 1 and not it.keywords and isinstance(it.args[0], (ast.Name, ast.Attribute, ast.Subscript)):
+            cont = " ".join(u(it.args[0]).split())
+        elif isinstance(it, ast.Call) and isinstance(it.func, ast.Attribute) and it.func.attr == "items" and not it.args:
+            cont = " ".join(u(it.func.value).split())
+        if cont is None or not (isinstance(loop.target, ast.Tuple) and len(loop.target.elts) == 2 and all(isinstance(e_, ast.Name) for e_ in loop.target.elts)):
+            return
+        k, x = loop.target.elts[0].id, loop.target.elts[1].id
+        rebound = set()
+        for b_ in loop.body:
+            rebound |= _stored_names(b_)
+        if k in rebound or x in rebound:
+            return
+
+        def fblock(stmts):
+            out = []
+            for s_ in stmts:
+                if isinstance(s_, ast.Assign) and len(s_.targets) == 1 and isinstance(s_.targets[0], ast.Subscript) and " ".join(u(s_.targets[0].value).split()) == cont \
+                        and isinstance(s_.targets[0].slice, ast.Name) and s_.targets[0].slice.id == k and isinstance(s_.value, ast.Name) and s_.value.id == x:
+                    out.append(ast.copy_location(ast.Pass(), s_))
+                else:
+                    out.append(s_)
+            return out
+        holder = ast.FunctionDef(name="_", args=ast.arguments(posonlyargs=[], args=[], kwonlyargs=[], kw_defaults=[], defaults=[]), body=loop.body, decorator_list=[])
+        loop.body = _map_blocks(holder, fblock).body
+    for n in ast.walk(fn):
+        if isinstance(n, ast.For):
+            rec(n)
+    # `if c: pass else: S` -> `if not c: S`; an `if` whose branches are all `pass` disappears when its test is a pure type / subset test
+    def tidy(stmts):
+        out = []
+        for s_ in stmts:
+            if isinstance(s_, ast.If):
+                body_pass = all(isinstance(b_, ast.Pass) for b_ in s_.body)
+                else_pass = all(isinstance(b_, ast.Pass) for b_ in s_.orelse)
+                if body_pass and s_.orelse and not else_pass:
+                    neg = s_.test.operand if isinstance(s_.test, ast.UnaryOp) and isinstance(s_.test.op, ast.Not) else ast.UnaryOp(op=ast.Not(), operand=s_.test)
+                    s_ = ast.copy_location(ast.If(test=neg, body=s_.orelse, orelse=[]), s_)
+                elif not body_pass and s_.orelse and else_pass:
+                    s_.orelse = []
+            out.append(s_)
+        return out
+    fn = _map_blocks(fn, tidy)
+    ast.fix_missing_locations(fn)
+    return fn
+
+
 def guard_form(fn):
     """`if c: A else: B` with A leaving the block on every path (return / raise / continue / break) -> `if c: A` followed by B: the
     guard-clause spelling is the canonical one (an inlined helper or an elif ladder of returns reads like a sequence of guards)."""
@@ -1128,6 +1180,8 @@ def record_classes(ix):
         props = {n.name for n in c.body if isinstance(n, ast.FunctionDef)}
         if fields and not (set(fields) & props):
             out[cq] = fields
+            if props:
+                ix.__dict__.setdefault("_record_methods", {})[cq] = {n.name: n for n in c.body if isinstance(n, ast.FunctionDef)}
     for m in ix.mods:
         for name, v in ix.module_globals(m).items():
             if isinstance(v, ast.Call) and u(v.func) in ("namedtuple", "collections.namedtuple") and len(v.args) == 2:
@@ -1172,6 +1226,62 @@ def fold_records(ix, f, fn):
                 return ast.copy_location(dict(fv)[node.attr], node)
             return node
     fn = A().visit(fn)
+    # a local bound once, at the top level of the function, to a record built from names that are not rebound afterwards: its fields are those
+    # names, and a call of one of its single-expression methods is that expression with the fields in place of self.<field>
+    methods_of = ix.__dict__.get("_record_methods", {})
+
+    def record_qual(call):
+        if not isinstance(call, ast.Call) or not isinstance(call.func, ast.Name):
+            return None
+        q = ix.resolve_name(f.mod, call.func.id) or "%s.%s" % (f.mod, call.func.id)
+        return q if q in recs else None
+    instances = {}
+    for st_ in fn.body:
+        if isinstance(st_, ast.Assign) and len(st_.targets) == 1 and isinstance(st_.targets[0], ast.Name) and fields_of(st_.value) is not None \
+                and all(isinstance(v, (ast.Name, ast.Constant, ast.Attribute)) for _, v in fields_of(st_.value)):
+            nm = st_.targets[0].id
+            stores = [n for n in ast.walk(fn) if isinstance(n, ast.Name) and n.id == nm and isinstance(n.ctx, (ast.Store, ast.Del))]
+            bound = {x.id for _, v in fields_of(st_.value) for x in ast.walk(v) if isinstance(x, ast.Name)}
+            later = set()
+            seen_ = False
+            for s2 in fn.body:
+                if s2 is st_:
+                    seen_ = True
+                    continue
+                if seen_:
+                    later |= _stored_names(s2)
+            if len(stores) == 1 and not (bound & later):
+                instances[nm] = (record_qual(st_.value), dict(fields_of(st_.value)))
+    if instances:
+        class I(ast.NodeTransformer):
+            def visit_Call(self, node):
+                self.generic_visit(node)
+                if isinstance(node.func, ast.Attribute) and isinstance(node.func.value, ast.Name) and node.func.value.id in instances:
+                    q, fv = instances[node.func.value.id]
+                    m = methods_of.get(q, {}).get(node.func.attr)
+                    if m is not None and not any(_decorator_name(d) for d in m.decorator_list):
+                        ret, binds = single_return(m)
+                        ps = [a.arg for a in m.args.posonlyargs + m.args.args]
+                        if ret is not None and not binds and ps and len(ps) - 1 == len(node.args) and not node.keywords and not m.args.vararg and not m.args.kwarg:
+                            selfname = ps[0]
+
+                            class S(ast.NodeTransformer):
+                                def visit_Attribute(self, a):
+                                    self.generic_visit(a)
+                                    if isinstance(a.value, ast.Name) and a.value.id == selfname and a.attr in fv and isinstance(a.ctx, ast.Load):
+                                        return copy.deepcopy(fv[a.attr])
+                                    return a
+                            body = S().visit(copy.deepcopy(ret))
+                            if not any(isinstance(x, ast.Name) and x.id == selfname for x in ast.walk(body)):
+                                return ast.copy_location(_Rename({}, dict(zip(ps[1:], node.args))).visit(body), node)
+                return node
+
+            def visit_Attribute(self, node):
+                self.generic_visit(node)
+                if isinstance(node.ctx, ast.Load) and isinstance(node.value, ast.Name) and node.value.id in instances and node.attr in instances[node.value.id][1]:
+                    return ast.copy_location(copy.deepcopy(instances[node.value.id][1][node.attr]), node)
+                return node
+        fn = I().visit(fn)
     # local lists of records used once, as a loop's iterable
     counts = {}
     for n in ast.walk(fn):
@@ -1222,7 +1332,7 @@ def fold_records(ix, f, fn):
         fv = fields_of(n) if isinstance(n, ast.Call) else None
         if fv is not None and isinstance(n.func, ast.Name):
             q = ix.resolve_name(f.mod, n.func.id) or "%s.%s" % (f.mod, n.func.id)
-            if q not in KNOWN_RECORDS and n.func.id not in {x.split(".")[-1] for x in KNOWN_RECORDS}:
+            if q not in KNOWN_RECORDS and n.func.id not in {x.split(".")[-1] for x in KNOWN_RECORDS} and q not in methods_of:
                 built[n.func.id] = [x for x, _ in fv]
     if built:
         owner = {}
@@ -1972,8 +2082,50 @@ def inline_function(ix, f, depth=2, _stack=(), keep=frozenset(), fn=None):
                     return rep, False
         return None, False
 
+    def hoist_header_calls(stmts):
+        """`for x in H(a).values():` / `if H(a):` with H a helper that has to be read in place: the call is bound to a temporary in front of
+        the statement (the header of a for / if is evaluated exactly once, before anything of the statement runs) when nothing but names,
+        constants and attribute loads is evaluated before it"""
+        from .ts import postorder
+        out = []
+        for s in stmts:
+            header = s.iter if isinstance(s, ast.For) else (s.test if isinstance(s, ast.If) else None)
+            if header is not None:
+                for call in _calls_outside_scopes(header):
+                    g = resolve(call)
+                    if g is None or single_return(getattr(g, "orig", None) or g.node)[0] is not None:
+                        continue
+                    ok = True
+                    for x in postorder(header):
+                        if x is call:
+                            break
+                        if any(x is y for y in ast.walk(call)):
+                            continue
+                        if not isinstance(x, (ast.Name, ast.Constant, ast.Attribute, ast.expr_context, ast.operator, ast.unaryop, ast.cmpop, ast.boolop)):
+                            ok = False
+                            break
+                    if not ok:
+                        continue
+                    counter[0] += 1
+                    tmp = "_r%d" % (1000 + counter[0])
+                    out.append(ast.copy_location(ast.Assign(targets=[ast.Name(id=tmp, ctx=ast.Store())], value=call), s))
+                    repl = ast.copy_location(ast.Name(id=tmp, ctx=ast.Load()), call)
+                    if header is call:
+                        if isinstance(s, ast.For):
+                            s.iter = repl
+                        else:
+                            s.test = repl
+                    else:
+                        _ReplaceNode(call, repl).visit(header)
+                    caller_names.add(tmp)
+                    break
+            out.append(s)
+        return out
+
     def block(stmts, d):
         out = []
+        if d > 0:
+            stmts = hoist_header_calls(list(stmts))
         for i, s in enumerate(stmts):
             rep, absorbed = simple_expand(s, stmts[i + 1:]) if d > 0 else (None, False)
             if rep is not None:
@@ -2062,6 +2214,9 @@ def propagate_aliases(fn, accessors=frozenset()):
             v = n.value
             if isinstance(v, ast.Name) and stores.get(v.id, 0) == 0 and v.id not in params and v.id not in ("True", "False", "None"):
                 cands[n.targets[0].id] = (n, v)                       # another name for a module-level object
+                continue
+            if isinstance(v, ast.Name) and stores.get(v.id, 0) == 1 and v.id not in loop_targets and n in fn.body and n.targets[0].id.startswith("_r1"):
+                cands[n.targets[0].id] = (n, v)                       # a temporary of the inliner naming a local that is bound once: two names, one object
                 continue
             if isinstance(v, ast.Subscript) and isinstance(v.value, ast.Name) and stores.get(v.value.id, 0) == 0 and v.value.id not in params and v.value.id.isupper() \
                     and isinstance(v.slice, ast.Name) and stable(v.slice.id):
@@ -2242,6 +2397,7 @@ def normal_form(ix, f, keep):
         lambda t: propagate_templates(t),
         lambda t: eliminate_temporaries(t),
         lambda t: fold_library_pairs(t),
+        lambda t: drop_identity_stores(t),
         lambda t: guard_form(t),
     ]
     prev = None
